@@ -68,6 +68,13 @@ _C01_REQ = ["blocks_phase0", "blocks_altair", "blocks_bellatrix", "blocks_capell
             # attester slashings whose intersection mixes slashable and non-slashable validators (valid: skipped)
             "attester_slashing_with_unslashable_member", "attester_slashing_includes_already_slashed",
             "attester_slashing_includes_not_yet_active", "attester_slashing_includes_withdrawable",
+            # index sets that differ on both sides (only the intersection is slashed)
+            "attester_slashing_partial_intersection_phase0", "attester_slashing_partial_intersection_altair",
+            "attester_slashing_partial_intersection_bellatrix", "attester_slashing_partial_intersection_deneb",
+            # every fork's AddValidator caps the effective balance of a new validator / rounds it down
+            "new_validator_deposit_above_max_effective_balance_phase0", "new_validator_deposit_above_max_effective_balance_altair",
+            "new_validator_deposit_above_max_effective_balance_bellatrix", "new_validator_deposit_above_max_effective_balance_capella",
+            "new_validator_deposit_above_max_effective_balance_deneb",
             # several aggregates of one committee with overlapping attester sets (altair+: flags / proposer reward per
             # NEW flag only; an implementation must not stop at the first attester that has nothing new)
             "atts_partial_overlap_flagged_before_new_altair", "atts_partial_overlap_flagged_before_new_bellatrix",
@@ -384,6 +391,12 @@ def run_replay(pid, path):
 MUTANTS = {
     # name: (file, old, new, property expected to flag it)
     # (the obvious "proposer share quotient" mutant is equivalent: whistleblower == proposer gets both parts)
+    # coverage round: branches no scenario reached before
+    "zigzag_join_keeps_left_only_members": ("eth2/beacon/common/validator_indices.go",
+                                            "\t\t\tif onOut != nil {\n\t\t\t\tonOut(iV)\n\t\t\t}\n\t\t\t// go to next\n\t\t\ti++\n\t\t\tupdateI()\n\t\t} else if iV > jV {",
+                                            "\t\t\tif onIn != nil {\n\t\t\t\tonIn(iV)\n\t\t\t}\n\t\t\t// go to next\n\t\t\ti++\n\t\t\tupdateI()\n\t\t} else if iV > jV {", "C01"),
+    "bellatrix_new_validator_effective_balance_uncapped": ("eth2/beacon/bellatrix/state.go",
+                                                           "if effBalance > spec.MAX_EFFECTIVE_BALANCE {", "if false && effBalance > spec.MAX_EFFECTIVE_BALANCE {", "C01"),
     "slash_reward_to_slashed": ("eth2/beacon/phase0/slashings.go",
                                 "if err := common.IncreaseBalance(bals, propIndex, proposerReward); err != nil {",
                                 "if err := common.IncreaseBalance(bals, slashedIndex, proposerReward); err != nil {", "C01"),
